@@ -547,11 +547,21 @@ def str_split_max (s sep n : PyVal) : M PyVal :=
   | .str _, _, _ => throw typeError
   | _, _, _ => throw attributeError
 
+/-- x3: `s.replace(old, new)` for a non-empty `old` -/
+def replaceStr (old new : Str) : Nat → Str → Str
+  | 0, s => s
+  | _ + 1, [] => []
+  | f + 1, c :: cs =>
+    if startsWith (c :: cs) old then new ++ replaceStr old new f ((c :: cs).drop old.length)
+    else c :: replaceStr old new f cs
+
 /-- `s.replace(old, new)` for a one-character `old` -/
 def str_replace (s o n : PyVal) : M PyVal :=
   match s, o, n with
   | .str s, .str [c], .str n => pure (.str (s.flatMap fun x => if x == c then n else [x]))
-  | .str _, .str _, .str _ => throw "PyRtUnsupported"
+  | .str s, .str o, .str n =>
+    -- x3: a pattern of several characters (left to right, non-overlapping); the empty pattern is not modelled
+    if o.isEmpty then throw "PyRtUnsupported" else pure (.str (replaceStr o n (s.length + 1) s))
   | .str _, _, _ => throw typeError
   | _, _, _ => throw attributeError
 
@@ -925,5 +935,19 @@ def fn_key (table : String) (f : PyVal) : M PyVal :=
 /-- `hash(v)` kept symbolic (an injective stand-in for the uninterpreted function), so that what is hashed stays visible;
 `src.call` patches `hash` in the module under test to build the same tuple -/
 def hash_sym (v : PyVal) : M PyVal := pure (.tuple [.str (ofString "__hash__"), v])
+
+/-! ## x3: `zip`, membership in a set display -/
+
+def zipVals : List PyVal → List PyVal → List PyVal
+  | a :: as, b :: bs => .tuple [a, b] :: zipVals as bs
+  | _, _ => []
+
+/-- `zip(a, b)` (materialised) -/
+def zip2 (a b : PyVal) : M PyVal := do
+  return .iter (zipVals (← iterate a) (← iterate b))
+
+/-- `x in {c1, c2, …}` for a set display of constants (given as a tuple): an unhashable `x` is `TypeError` -/
+def contains_set (a x : PyVal) : M Bool :=
+  if !hashable x then throw typeError else contains a x
 
 end PyRt
